@@ -32,6 +32,7 @@ from pathlib import Path
 from src.core.base import BaseLintContext, BaseLintRule
 from src.core.constants import HEADER_SCAN_LINES, IgnoreDirective, Language
 from src.core.types import Severity, Violation
+from src.linter_config.directive_markers import has_bare_file_ignore, has_bare_line_ignore
 from src.linter_config.ignore import get_ignore_parser
 from src.linter_config.rule_matcher import rule_matches
 
@@ -199,7 +200,7 @@ class CollectionPipelineRule(BaseLintRule):  # thailint: ignore[srp,dry]
 
         # Check for general ignore-file (no rule specified)
         if "ignore-file[" not in line_lower:
-            return True
+            return has_bare_file_ignore(line_lower)
 
         # Check for rule-specific ignore
         return self._matches_rule_ignore(line_lower, "ignore-file")
@@ -369,9 +370,9 @@ class CollectionPipelineRule(BaseLintRule):  # thailint: ignore[srp,dry]
         if "thailint:" not in line or "ignore" not in line:
             return False
 
-        # General ignore (no rule specified)
+        # General ignore (no rule specified); directives naming rules in another form are the parser's
         if "ignore[" not in line:
-            return True
+            return has_bare_line_ignore(line)
 
         # Rule-specific ignore
         return self._matches_rule_ignore(line, IgnoreDirective.IGNORE)
